@@ -719,6 +719,7 @@ def describe():
              "div/p/span/br/ruby; region references at any level) or read by a real reader from a producer file. Snapshot times are "
              "significant times, +-1 ms around them, midpoints, and values outside the document. distinct_nontrivial counts distinct "
              "(document source, region count class, call kind, cached-path class) x first-12-call-kind sequences (measure history_shape)."),
+    "fault_note": "no fault is injected: C14's statement has no fault dimension; the explored dimension is the order and reuse of calls on shared state (stale SignificantTimes objects, repeated writers)",
     "nontrivial_measure": "history_shape",
     "components": {"real": ["isd.py (significant_times, from_model, generate_isd_sequence, style processors)", "model.py", "ISD filters used by the writers", "srt/vtt/imsc writers", "readers when the recipe is a file"],
                    "stub": [], "simulated": ["caller issuing the call history (seeded scheduler)", "authoring tools for file recipes"],
